@@ -53,8 +53,9 @@ func cmdWorker(cfg runConfig) int {
 	solver = NewSolver(cfg.Solver, cfg.TimeoutMs, cfg.Seed)
 	defer solver.Close()
 	if cc := os.Getenv("GOSMT_CROSSCHECK"); cc != "" && cc != cfg.Solver {
-		solver2 = NewSolver(cc, cfg.TimeoutMs, cfg.Seed)
-		defer solver2.Close()
+		newSolver2 = func() *Solver { return NewSolver(cc, crossCheckTimeoutMs(cfg.TimeoutMs), cfg.Seed) }
+		solver2 = newSolver2()
+		defer func() { solver2.Close() }()
 	}
 	i.ensureInit(lh.pkg)
 	enc.Encode(workerResp{Ready: true})
